@@ -54,6 +54,8 @@ pub struct BodySpec {
     pub steer: Option<(usize, i32, usize, bool)>,
     pub tail: Tail,
     pub flips: Vec<u16>,
+    /// when false, every "negative zero" (1 0000000 1) left after steering is turned into +0
+    pub allow_neg_zero: bool,
 }
 
 impl BodySpec {
@@ -91,6 +93,13 @@ impl BodySpec {
                             rounds += 1;
                         }
                     }
+                }
+            }
+        }
+        if !self.allow_neg_zero {
+            for c in coefs.iter_mut() {
+                if c.low == 0 && c.high == 0 {
+                    c.neg = false;
                 }
             }
         }
@@ -166,14 +175,17 @@ pub fn body_strategy(n: usize, len: usize) -> BoxedStrategy<BodySpec> {
     ];
     let tail = prop_oneof![6 => Just(Tail::Zeros), 1 => Just(Tail::Ones), 2 => any::<u64>().prop_map(Tail::Garbage)];
     let flips = prop_oneof![6 => Just(vec![]), 2 => proptest::collection::vec(any::<u16>(), 1..3)];
-    (coefs, steer, tail, flips)
-        .prop_map(move |(coefs, steer, tail, flips)| {
+    // negative zero (1 0000000 1) is rejected wherever it occurs; keep it to one body in eight so
+    // that the other rules are reached
+    let allow_neg_zero = prop_oneof![7 => Just(false), 1 => Just(true)];
+    (coefs, steer, tail, flips, allow_neg_zero)
+        .prop_map(move |(coefs, steer, tail, flips, allow_neg_zero)| {
             let k = coefs.len();
             // `back` counts from the end of the list: coefficient k-1-back is the one that is steered
             let steer = steer.map(|(back, d, at, single)| (k.saturating_sub(1 + back.min(k.saturating_sub(1))).max(0), d, at, single));
             // steering index 0 would mean "nothing before it": use k-1 when the list has one element
             let steer = steer.map(|(j, d, at, single)| if j == 0 { (k.min(1), d, at, single) } else { (j, d, at, single) });
-            BodySpec { n, len, coefs, steer, tail, flips }
+            BodySpec { n, len, coefs, steer, tail, flips, allow_neg_zero }
         })
         .boxed()
 }
